@@ -20,6 +20,7 @@
  *   vector ops: insert:K  remove:K  find:K  contains:K  count  iterate  to_array
  *   map    ops: set:K:V  get:K  remove:K  has_key:K  has_value:V  count  get_keys  get_values
  *               get_pairs  iterate
+ *               newpair                      -- spif_objpair_new() + del of an empty pair, prints '-'
  *               mutk:T  mutv:T  delk  delv   -- act on the CALLER's key / value object of the most
  *                                               recent `set` (change its text / delete it); no-ops
  *                                               for the ideal dictionary, which holds copies
@@ -53,7 +54,7 @@
  *                                      get(0..n-1) of the copy by text
  *         TX               map get          PR  map remove
  *         [TX..]           get_keys get_values      [PR..]  get_pairs, map iterate
- *         '-'              mutk mutv delk delv
+ *         '-'              mutk mutv delk delv newpair
  *   readback:
  *     list  : 'n=' int ' g=' [E..] ' i=' [E..]     g = get(i) for i = -n-1 .. n ; i = fresh iterator
  *     vector: 'n=' int ' i=' [VE..] ' a=' [VE..] ' m=' ('ok'|'BAD')     a = to_array; m = ok iff the iterator
@@ -382,6 +383,12 @@ static int do_map_op(spif_obj_t c, int na, char **a)
     else if (IS("mutv") && na == 2) { if (cv) retext(cv, a[1]); putchar('-'); }
     else if (IS("delk") && na == 1) { if (ck) { SPIF_OBJ_DEL(ck); ck = NULL; } putchar('-'); }
     else if (IS("delv") && na == 1) { if (cv) { SPIF_OBJ_DEL(cv); cv = NULL; } putchar('-'); }
+    else if (IS("newpair") && na == 1) {
+        /* an empty pair (spif_objpair_new) has neither key nor value and can be deleted again */
+        spif_objpair_t p = spif_objpair_new();
+        if (p && !p->key && !p->value) putchar('-'); else pp(SPIF_OBJ(p));
+        if (p) spif_objpair_del(p);
+    }
     else if (IS("get") && na == 2) { e = mk_str(a[1]); pt(SPIF_MAP_GET(c, e)); SPIF_OBJ_DEL(e); }
     else if (IS("remove") && na == 2) { e = mk_str(a[1]); r = SPIF_MAP_REMOVE(c, e); pp(r); to_pool(r); SPIF_OBJ_DEL(e); }
     else if (IS("has_key") && na == 2) { e = mk_str(a[1]); pb(SPIF_MAP_HAS_KEY(c, e)); SPIF_OBJ_DEL(e); }
@@ -507,7 +514,7 @@ int main(int argc, char **argv)
     FILE *f;
     char *line = NULL;
     size_t cap = 0;
-    long k = 0, start = (argc > 2) ? atol(argv[2]) : 0, ncrash = 0;
+    long k = 0, start = (argc > 2) ? atol(argv[2]) : 0, ncrash = getenv("LV_NOSYM") ? 21 : 0;
 
     if (argc < 2 || !(f = fopen(argv[1], "r"))) { fprintf(stderr, "usage: harness cases [start]\n"); return 2; }
     setvbuf(stdout, NULL, _IOFBF, 1 << 16);
@@ -546,6 +553,27 @@ int main(int argc, char **argv)
         if (++ncrash <= 20) fprintf(stderr, "--- case %ld: %s\n%.1500s\n", (long) pg->k, verdict, rep);
         else fprintf(stderr, "--- case %ld: %s\n", (long) pg->k, verdict);
         k = pg->k + 1;
+        if (ncrash >= 3000 + 21) {
+            /* a tree this broken needs no more evidence (the check reports the shortest failing history) */
+            fprintf(stderr, "harness: %ld faults, stopping at case %ld\n", ncrash, k);
+            break;
+        }
+        if (ncrash == 20 && !getenv("LV_NOSYM")) {
+            /* symbolising a report costs ~50 ms: after 20 full reports restart without the symbolizer */
+            char opt[1024], start_s[32];
+            const char *o;
+            fflush(stdout);
+            o = getenv("ASAN_OPTIONS");
+            snprintf(opt, sizeof(opt), "%s%ssymbolize=0", o ? o : "", o ? ":" : "");
+            setenv("ASAN_OPTIONS", opt, 1);
+            o = getenv("UBSAN_OPTIONS");
+            snprintf(opt, sizeof(opt), "%s%ssymbolize=0", o ? o : "", o ? ":" : "");
+            setenv("UBSAN_OPTIONS", opt, 1);
+            setenv("LV_NOSYM", "1", 1);
+            snprintf(start_s, sizeof(start_s), "%ld", k);
+            execl(argv[0], argv[0], argv[1], start_s, (char *) NULL);
+            perror("execl");
+        }
     }
     return 0;
 }
